@@ -130,6 +130,21 @@ def blatt_weisskopf_records(tier):
             except (ValueError, TypeError, ZeroDivisionError):
                 hank = exactq(sp.nan)
             recs.append({"k": "bwval", "L": L, "z": rat(zq), "fast": fast, "hankel": hank})
+    # below threshold (z = q^2 d^2 < 0, which every width and Breit-Wigner meets for s under the threshold): the symbolic-L
+    # (Hankel) path against the integer-L (polynomial) path
+    z_real = sp.Symbol("z", real=True)   # (no sign assumption: the value is negative)
+    hankel_real = BlattWeisskopfSquared(z_real, ell).doit()
+    for L in ((0, 1, 2, 3) if tier != "thorough" else range(0, 7)):
+        for zz in ("-1/4", "-4"):
+            zq = sp.Rational(zz)
+            try:
+                fast = BlattWeisskopfSquared(zq, sp.Integer(L)).doit()
+                hank = hankel_real.subs({ell: L, z_real: zq}).doit()
+                equal = int(sp.simplify(fast - hank) == 0)
+                shown = [str(fast), str(sp.simplify(hank))]
+            except (ValueError, TypeError, ZeroDivisionError) as e:
+                equal, shown = 0, ["raised", type(e).__name__]
+            recs.append({"k": "bwneg", "L": L, "z": rat(zq), "equal": equal, "fast_s": shown[0], "hankel_s": shown[1]})
     # the caller's symbols may have any name: the defining expression with the symbolic L (or a symbol inside z) called like a
     # summation index an implementation might use - the values must not depend on it (no capture by a bound index)
     for nm in ("k", "n", "j", "i", "m", "l", "ell", "R"):
@@ -364,6 +379,8 @@ def sig_of(clause, info, rec):
     """(stable signature of the failing input class, which member of the class)"""
     if rec["k"] == "bwpoly":
         return f"blatt-weisskopf:{clause}:{rec['path']}-path", f"L={rec['L']}"
+    if rec["k"] == "bwneg":
+        return "blatt-weisskopf:hankel-path(symbolic L)!=polynomial-path:z<0", f"L={rec['L']},z={rec['z'][0]}/{rec['z'][1]}"
     if rec["k"] == "bwval":
         return f"blatt-weisskopf:{clause}" + (f":caller-symbol-named-{rec['symbol'].replace(' ', '-')}" if rec.get("symbol") else ""), f"L={rec['L']}"
     if rec["k"] == "width":
@@ -386,6 +403,8 @@ def describe(rec):
         from ..lineshape_obs import unz
 
         return f"BlattWeisskopfSquared(z, {rec['L']}).doit() [{rec['path']} path] = ({[unz(c) for c in rec['num']]}) / ({[unz(c) for c in rec['den']]}) (coefficients low->high)"
+    if rec["k"] == "bwneg":
+        return f"B_{rec['L']}^2({rec['z'][0]}/{rec['z'][1]}): polynomial path (integer L) {rec['fast_s']}, Hankel path (symbolic L, then L := {rec['L']}) {rec['hankel_s']}"
     if rec["k"] == "bwval":
         from ..lineshape_obs import unz
 
@@ -461,7 +480,7 @@ def run(chk, replay=None):
     if adj:
         chk.sample({"numeric": describe(adj[0])})
     if not replay:
-        for key in ("bwpoly", "bwval", "width_pole", "width_formula", "bld", "bld_raise", "adj"):
+        for key in ("bwpoly", "bwval", "bwneg", "width_pole", "width_formula", "bld", "bld_raise", "adj"):
             if tv.stats.get(key, 0) == 0:
                 raise Machinery(f"vacuous trace: no record of kind {key!r} ({tv.stats})")
 
